@@ -91,7 +91,8 @@ def count_objects(c):
     n, x = c["n"], c["x"]
     nt = c.get("ntype")          # counts usually come out of numpy (arr.sum(), len): numpy integer scalars are integers too
     if nt == "arr0":
-        return np.array(n), np.array(x)
+        dt = [np.int64, np.int32, np.uint16][(n + x) % 3]
+        return np.array(n, dtype=dt), np.array(x, dtype=dt)
     if nt:
         return getattr(np, nt)(n), getattr(np, nt)(x)
     return n, x
@@ -115,6 +116,12 @@ def _run(c):
         out["failing_first"] = [list(call(c, p=None, kw={"maxiter": 1}, objs=objs))[:2], list(call(c, p=None, kw={"tol": 1e-3}, objs=objs))[:2]]
         out["r"] = list(call(c, objs=objs))
         out["plain"] = list(call(c, p=None, kw=None, objs=objs))
+        # a SECOND pair of count objects of the same dtype used in alternation with the first: the calls on one pair must not
+        # disturb the other pair, neither its value nor the result of the next call on it
+        other = (np.array(c["n"], dtype=objs[0].dtype), np.array((c["x"] + max(1, c["n"] // 2)) % (c["n"] + 1), dtype=objs[1].dtype))
+        out["other"] = [list(call(c, p=None, kw=None, objs=other)), int(other[1])]
+        out["plain_again"] = list(call(c, p=None, kw=None, objs=objs))
+        out["other_after"] = [int(other[0]), int(other[1])]
         out["objs_after"] = [int(objs[0]), int(objs[1])]
         return out
     if c.get("big"):
@@ -152,6 +159,8 @@ def oracle(c, o):
     if r[0] != "ok":
         cls = "binom_conf_interval:kwargs" if c["kw"] else "binom_conf_interval:raises"
         return {"why": f"binom_conf_interval({c['n']}, {c['x']}, cl={c['cl']}, {c['alt']}, p={c['p']}, {c['kw']}) raised {r}", "cls": cls}
+    if "plain_again" in o and (o["plain_again"] != o["plain"] or o["other_after"] != [c["n"], o["other"][1]]):
+        return {"why": f"binom_conf_interval(n={c['n']}, x={c['x']} as 0-d arrays): after a call on ANOTHER pair of count objects (x={o['other'][1]}) the same call returns {o['plain_again']}, before {o['plain']}; the other pair reads {o['other_after']} afterwards", "cls": "binom_conf_interval:input-modified"}
     if "objs_after" in o and o["objs_after"] != [c["n"], c["x"]]:
         return {"why": f"binom_conf_interval changed the caller's count objects (0-d arrays n={c['n']}, x={c['x']}) to {o['objs_after']} (a call that raised came first: {o['failing_first']})", "cls": "binom_conf_interval:input-modified"}
     L, U = r[1]
